@@ -772,6 +772,9 @@ namespace Pistache::Http
             return 0;
 
         std::ostream os(&buf_);
+        // chunk framing is protocol text: not in the global locale, which may
+        // group digits ("1,000" for a chunk of 4096 bytes)
+        os.imbue(std::locale::classic());
         os << std::hex << sz << crlf;
         os.write(data, sz);
         os << crlf;
